@@ -302,10 +302,19 @@ func drawTwin(t *rapid.T) twinCase {
 	eo.Interleave = true
 	eo.Labels = &c.Labels
 	enc := model.Encode(md, content, gen.RapidChooser{T: t}, eo, nil)
-	if k := rapid.IntRange(0, 7).Draw(t, "corrupt"); k <= 1 {
-		if k == 0 {
+	if k := rapid.IntRange(0, 8).Draw(t, "corrupt"); k <= 2 {
+		switch {
+		case k == 0:
 			c.In, c.Corrupt = gen.MutateDeep(t, enc)
-		} else {
+		case k == 2:
+			// a packed run with one hostile element, at the top level or below (lazy) message fields:
+			// the lazy validator and the eager decoder must agree on it
+			if b, kind, ok := gen.PackedFault(t, md); ok {
+				c.In, c.Corrupt = b, "packed-fault-"+kind
+			} else {
+				c.In, c.Corrupt = gen.MutateDeep(t, enc)
+			}
+		default:
 			c.In, c.Corrupt = injectWrongWire(t, md, enc), "wrong-wiretype-occurrence"
 		}
 		// content unknown to the model: verdict comparison, then read-only steps at blind paths
